@@ -74,7 +74,8 @@ func (partyIDs IDSlice) search(x ID) (int, bool) {
 }
 
 // WriteTo implements io.WriterTo and should be used within the hash.Hash function.
-// It writes the full uncompressed point to w, ie 64 bytes.
+// It writes the number of IDs, followed by each ID prefixed with its length,
+// so that different lists of IDs never produce the same bytes.
 func (partyIDs IDSlice) WriteTo(w io.Writer) (int64, error) {
 	if partyIDs == nil {
 		return 0, io.ErrUnexpectedEOF
@@ -88,8 +89,13 @@ func (partyIDs IDSlice) WriteTo(w io.Writer) (int64, error) {
 	if err != nil {
 		return 0, err
 	}
-	nAll := int64(4)
+	nAll := int64(8)
 	for _, id := range partyIDs {
+		err = binary.Write(w, binary.BigEndian, uint64(len(id)))
+		if err != nil {
+			return nAll, err
+		}
+		nAll += 8
 		n, err = w.Write([]byte(id))
 		nAll += int64(n)
 		if err != nil {
